@@ -213,7 +213,7 @@ def _run_tlc(args):
     return mode, res, behs
 
 
-def generate(seed, n_configs, mc_configs, mc_ops, sim_num, sim_ops, workers=4, timeout=900, max_size=36):
+def generate(seed, n_configs, mc_configs, mc_ops, sim_num, sim_ops, workers=4, sim_workers=None, timeout=900, max_size=36):
     """Catalogue -> TLC (exhaustive + simulation, concurrently) -> behaviours.  Returns dict(catalogue, runs, behaviours)."""
     from concurrent.futures import ThreadPoolExecutor
     rng = random.Random(seed)
@@ -222,13 +222,14 @@ def generate(seed, n_configs, mc_configs, mc_ops, sim_num, sim_ops, workers=4, t
     d_sim = tlc.scratch('ctor-sim')
     try:
         jobs = []
-        w = max(1, workers // 2)
+        w_sim = sim_workers or max(1, workers // 2)
+        w_mc = max(1, workers - w_sim)
         # exhaustive run over the first `mc_configs` configurations, simulation over all
         for (d, mode, cat) in ((d_mc, 'mc', catalogue[:mc_configs]), (d_sim, 'sim', catalogue)):
             spec = os.path.join(d, 'NpcCtorMC.tla')
             with open(spec, 'w') as f:
                 f.write(mc_module('NpcCtorMC', cat))
-            jobs.append((mode, d, spec, seed % 100000 + 1, mc_ops if mode == 'mc' else sim_ops, sim_num, w, timeout))
+            jobs.append((mode, d, spec, seed % 100000 + 1, mc_ops if mode == 'mc' else sim_ops, sim_num, w_mc if mode == 'mc' else w_sim, timeout))
         with ThreadPoolExecutor(max_workers=2) as ex:
             out = list(ex.map(_run_tlc, jobs))
     finally:
@@ -762,12 +763,12 @@ def canon_equal(ra, rb):
 # phase driver
 # ------------------------------------------------------------------------------------------------
 TIERS = {
-    # sim_num is per TLC worker (workers // 2 of them simulate while the others run the exhaustive search);
+    # sim_num is per TLC worker (sim_workers of them simulate while the others run the exhaustive search);
     # mc_configs: number of catalogue configurations searched exhaustively (one operation from the catalogue state)
-    ('C02', 'quick'): dict(n_configs=4, mc_configs=4, mc_ops=1, sim_num=20, sim_ops=6, workers=4, timeout=600, max_size=24),
+    ('C02', 'quick'): dict(n_configs=4, mc_configs=3, mc_ops=1, sim_num=20, sim_ops=6, workers=4, timeout=600, max_size=24),
     ('C04', 'quick'): dict(n_configs=4, mc_configs=2, mc_ops=1, sim_num=20, sim_ops=6, workers=4, timeout=600, max_size=24),
-    ('C02', 'thorough'): dict(n_configs=24, mc_configs=8, mc_ops=1, sim_num=150, sim_ops=8, workers=4, timeout=1500, max_size=36),
-    ('C04', 'thorough'): dict(n_configs=24, mc_configs=6, mc_ops=1, sim_num=150, sim_ops=8, workers=4, timeout=1500, max_size=36),
+    ('C02', 'thorough'): dict(n_configs=24, mc_configs=8, mc_ops=1, sim_num=70, sim_ops=8, workers=4, sim_workers=3, timeout=1500, max_size=36),
+    ('C04', 'thorough'): dict(n_configs=24, mc_configs=6, mc_ops=1, sim_num=70, sim_ops=8, workers=4, sim_workers=3, timeout=1500, max_size=36),
 }
 
 
